@@ -153,6 +153,8 @@ func (c *Ctx) convert(v Value, T types.Type, e *ast.CallExpr) Value {
 					}
 					if needs {
 						c.oblige("conv", exprText(e), inRange(v.S, T), e.Pos())
+						// integer conversions truncate: model the value faithfully
+						return Scalar(Ite(inRange(v.S, T), v.S, wrapTo(v.S, T)), T)
 					}
 				}
 			}
@@ -329,9 +331,35 @@ func resultType(o *types.Func) types.Type {
 	return sig.Results()
 }
 
+// atCall evaluates the "at call X: assert ..." clauses of the enclosing function's contract.
+func (c *Ctx) atCall(e *ast.CallExpr, args []Value) {
+	if c.spec || c.fr == nil || c.fr.fi == nil || c.fr.fi.Spec == nil || e == nil {
+		return
+	}
+	cs := c.fr.fi.Spec.AtCall[exprText(e.Fun)]
+	if cs == nil {
+		return
+	}
+	vars := map[string]Value{}
+	for k, v := range c.x.entryVars(c.fr) {
+		vars[k] = v
+	}
+	for i, a := range args {
+		vars[fmt.Sprintf("arg%d", i)] = a
+	}
+	for _, a := range cs.Asserts {
+		g := c.specEval(a.Expr, c.st, c.x.entryState(c.fr), vars)
+		c.x.oblige(c.st, "assert", exprText(e.Fun)+clauseLabel(a), c.x.tagsOr(a.Tags, c.fr), g, e.Pos(), a.Text)
+	}
+	for _, g := range cs.Ghosts {
+		c.execGhost(g, vars, c.x.entryState(c.fr))
+	}
+}
+
 func (c *Ctx) callFunc(o *types.Func, recv Value, args []Value, e *ast.CallExpr) Value {
 	x := c.x
 	o = o.Origin()
+	c.atCall(e, args)
 	if fi := x.w.FuncOf(o); fi != nil {
 		if fi.Spec != nil && !fi.Spec.Inline && fi.Spec.Trusted == "" && !c.spec {
 			return c.modularCall(fi, recv, args, e)
@@ -428,6 +456,7 @@ func (c *Ctx) callback(name string, T types.Type, e *ast.CallExpr) Value {
 		panic(engineErr("%s: call of non-function field %s", x.pos(e.Pos()), name))
 	}
 	args := c.evalArgs(e.Args)
+	c.atCall(e, args)
 	var rt types.Type
 	switch sig.Results().Len() {
 	case 0:
@@ -542,7 +571,7 @@ func (c *Ctx) execGhost(g *Clause, vars map[string]Value, old *State) {
 	if v.Kind == KScalar {
 		v = Scalar(v.S, nil)
 	} else if v.Kind == KSlice {
-		v = Value{Kind: KSlice, Arr: v.Arr, Len: v.Len, IsNil: False}
+		v = Value{Kind: KSlice, T: v.T, Arr: v.Arr, Len: v.Len, IsNil: False}
 	}
 	c.st.store["G:"+gd.Name] = v
 }
